@@ -1,7 +1,7 @@
 """C14 seqlock rules."""
 from . import flow
 from .flow import chain, guarded, present
-from .evalx import evalx, Unknown
+from .evalx import evalx, run_until, Unknown
 from .schemes import call, FENCE_ACQ
 
 S = "xenium::seqlock::"
@@ -150,9 +150,10 @@ def _slots_of(fn):
 
 
 def _check_index(ctx, rid, fn, call_nid, ref, label, reader=False):
+    """finite execution: the function is interpreted for every sequence value s of a small range (the value the reader loads from _seq /
+    the odd value acquire_lock() hands to a writer) up to the copy call, where the index argument _data[idx] is evaluated"""
     slots = _slots_of(fn)
     kids = fn.kids(call_nid)
-    # argument that designates this->_data[...]
     target = None
     for k in kids:
         n = fn.nodes[k]
@@ -164,48 +165,19 @@ def _check_index(ctx, rid, fn, call_nid, ref, label, reader=False):
         return
     bad = None
     n_eval = 0
-    # the sequence variable(s) the index expression depends on, found by where their value comes from (not by name)
-    want_src = "load:_seq" if reader else "call:acquire_lock"
-    seqvars = set()
-    stack_ = [target]
-    seen_ = set()
-    while stack_:
-        x = stack_.pop()
-        if x in seen_:
-            continue
-        seen_.add(x)
-        xn = fn.nodes[x]
-        if xn["k"] == "ref" and xn.get("dk") == "local":
-            defs = flow.all_defs(fn, xn["name"])
-            if any(want_src in flow.srcs(fn, d) and not (fn.nodes[d]["k"] == "bin" and fn.nodes[d]["op"] in ("%", "&", "+")) for d in defs) and (
-                    want_src in flow.srcs(fn, x)):
-                # a variable directly holding the (possibly shifted) sequence
-                if any(fn.nodes[d]["k"] == "call" for d in defs):
-                    seqvars.add(xn["name"])
-                    continue
-            for d in defs:
-                stack_.append(d)
-        stack_.extend(fn.kids(x))
-    if not seqvars:
-        try:
-            evalx(fn, target, {})   # a constant index (single slot) is evaluated as such below
-        except Unknown:
-            ctx.note("slot index expression of %s: no sequence variable found" % label)
-            return
     for s in range(0, 4 * slots + 6):
         seq = s | 1 if not reader else s  # writers hold an odd sequence; readers may see odd (multi-slot) or even
         if reader and slots == 1 and (seq & 1):
             continue
+        env0 = {"load:_seq": seq, "call:acquire_lock": (lambda seq=seq: seq), "call:is_write_pending": (lambda x: x & 1), "slots": slots, "this.slots": slots}
         try:
-            if reader and slots > 1:
-                # the reader normalises seq with >>=1 / <<=1 statements before indexing: model the documented intent
-                env = {v: seq >> 1 for v in seqvars}
-            else:
-                env = {v: seq for v in seqvars}
+            env, at = run_until(fn, env0, lambda f, e: e == call_nid)
+            if at is None:
+                raise Unknown("copy call not reached")
             got = evalx(fn, target, env)
             want = ref(seq, slots)
         except Unknown as e:
-            ctx.note("slot index expression of %s not evaluable: %s" % (label, e))
+            ctx.broken.append("seqlock %s: slot index not evaluable for sequence %d (%s)" % (label, seq, e))
             return
         n_eval += 1
         if got != want:
